@@ -22,24 +22,7 @@
 /* The codec state block (ALAC_PRIVATE, > 1 MB in the shipped build, ~170 KB with the packet-buffer hook) is handed
 ** out as a TYPED static object instead of an untyped calloc block (R1: the solver ran out of memory on the byte-array
 ** encoding of the block); its release by psf_close is tracked by a ghost flag. Every other allocation is real. */
-#if defined (VERIF_CBMC) || defined (__CPROVER__)
-/* The bit-stream library (src/ALAC) is a contract stub in this harness; its state structs (about 100 KB of work arrays
-** that only the library touches) are replaced by small stand-ins so that ALAC_PRIVATE fits the symbolic executor.
-** src/alac.c itself is compiled unchanged against these declarations (it only reads decoder.mNumChannels). */
-#define ALAC_CODEC_H
-#include <stdint.h>
-#include "ALAC/ALACAudioTypes.h"
-#define ALAC_FRAME_LENGTH 4096
-struct BitBuffer ;
-typedef struct alac_decoder_s { uint32_t mNumChannels ; int32_t small_state [4] ; } ALAC_DECODER ;
-typedef struct alac_encoder_s { uint32_t mNumChannels ; int32_t small_state [4] ; } ALAC_ENCODER ;
-int32_t alac_decoder_init (ALAC_DECODER *p, void *inMagicCookie, uint32_t inMagicCookieSize) ;
-int32_t alac_encoder_init (ALAC_ENCODER *p, uint32_t samplerate, uint32_t channels, uint32_t format_flags, uint32_t frameSize) ;
-int32_t alac_decode (ALAC_DECODER *, struct BitBuffer *bits, int32_t *sampleBuffer, uint32_t numSamples, uint32_t *outNumSamples) ;
-int32_t alac_encode (ALAC_ENCODER *p, uint32_t numSamples, const int32_t *theReadBuffer, unsigned char *theWriteBuffer, uint32_t *ioNumBytes) ;
-uint32_t alac_get_magic_cookie_size (uint32_t inNumChannels) ;
-void alac_get_magic_cookie (ALAC_ENCODER *p, void *config, uint32_t *ioSize) ;
-#endif
+#include "alac_standin.h"
 static void *verif_calloc (size_t n, size_t s) ;
 static void verif_free (void *p) ;
 #define calloc verif_calloc
@@ -74,7 +57,7 @@ verif_free (void *p)
 #define ENC_MAX 40
 #endif
 
-#if defined (VERIF_CBMC) || defined (__CPROVER__)
+/* (compiled in both modes: in native replay these definitions take the place of the library's, harness objects link first) */
 /* contract stubs of the ALAC bit-stream library (src/ALAC): not the subject here */
 int32_t alac_encoder_init (ALAC_ENCODER *p, uint32_t samplerate, uint32_t channels, uint32_t format_flags, uint32_t frameSize)
 {	(void) p ; (void) samplerate ; (void) channels ; (void) format_flags ; (void) frameSize ; return 0 ; }
@@ -95,7 +78,7 @@ void alac_get_magic_cookie (ALAC_ENCODER *p, void *config, uint32_t *ioSize)
 int32_t alac_decoder_init (ALAC_DECODER *p, void *c, uint32_t n) { (void) p ; (void) c ; (void) n ; return 0 ; }
 int32_t alac_decode (ALAC_DECODER *p, struct BitBuffer *bits, int32_t *sampleBuffer, uint32_t numSamples, uint32_t *outNumSamples)
 {	(void) p ; (void) bits ; (void) sampleBuffer ; (void) numSamples ; *outNumSamples = 0 ; return 0 ; }
-#endif
+
 
 static SF_PRIVATE g_static ;
 static unsigned char g_hdr [300] ;
